@@ -371,3 +371,50 @@ fn validate_at_completion_contract() {
     core::mem::forget(r);
     core::mem::forget(t);
 }
+
+// =========================================================================================
+// C05: the diagnostic report is empty exactly when cumulative validation passes
+// =========================================================================================
+fn stub_l2rep<T, U, V, const D: usize>(_t: &Tds<T, U, V, D>) -> Result<(), TriangulationValidationReport>
+where U: DataType, V: DataType {
+    vk_event(C_L2REP);
+    if vk_fails(C_L2REP) {
+        let kind = if VK_AUX.load(AOrd::Relaxed) & 1 == 1 { InvariantKind::VertexMappings } else { InvariantKind::FacetSharing };
+        let mut violations = Vec::with_capacity(4);
+        violations.push(InvariantViolation { kind, error: InvariantError::Tds(tdserr(C_L2REP)) });
+        Err(TriangulationValidationReport { violations })
+    } else {
+        Ok(())
+    }
+}
+
+#[kani::proof]
+#[kani::unwind(4)]
+#[kani::stub(Tds::validation_report, stub_l2rep)]
+#[kani::stub(Triangulation::is_valid, stub_l3)]
+#[kani::stub(Triangulation::validate_at_completion, stub_compl)]
+fn validation_report_contract() {
+    let t = any_tri();
+    let fail: u64 = kani::any();
+    vk_reset(fail, 0);
+    let mapping_failure: bool = kani::any();
+    VK_AUX.store(mapping_failure as u64, AOrd::Relaxed);
+    let r = t.validation_report();
+    let bit = |c: u64| (fail >> c) & 1 == 1;
+    let all_pass = !bit(C_L2REP) && !bit(C_L3) && !bit(C_COMPL);
+    assert!(r.is_ok() == all_pass,
+        "OBL report-iff-validate: the report is empty exactly when the structural report, Level 3 and the completion-time check all pass (the same conjunction validate() decides)");
+    if all_pass {
+        assert!(vk_called(C_L2REP) && vk_called(C_L3) && vk_called(C_COMPL), "OBL all-consulted: every level is consulted before an empty report is returned");
+    }
+    if let Err(rep) = &r {
+        assert!(!rep.violations.is_empty(), "OBL nonempty-err: an Err report lists at least one violation");
+        if bit(C_L2REP) && mapping_failure {
+            assert!(!vk_called(C_L3), "OBL mapping-stop: with inconsistent mappings the higher levels are not run (their results would be meaningless)");
+        }
+    }
+    kani::cover!(r.is_ok(), "COV empty report");
+    kani::cover!(r.is_err() && !bit(C_L2REP) && !bit(C_L3), "COV only the completion check fails");
+    core::mem::forget(r);
+    core::mem::forget(t);
+}
